@@ -12,13 +12,28 @@ const DBG: bool = cfg!(debug_assertions);
 const PATH: u64 = if cfg!(all(target_arch = "x86_64", target_feature = "bmi2")) { 0 } else { 1 };
 
 fn build_routes(bits: &[bool], sup: u64) -> (BitVector, bool) {
-    let words = to_words(bits);
     // route 1: raw vector
     let mut raw = RawVector::with_capacity(bits.len());
     let mut left = bits.len();
-    for w in words.iter() {
-        let k = std::cmp::min(64, left);
-        unsafe { raw.push_int(*w, k); }
+    // pieces of varying width (so that most of them straddle a word boundary); the bits of the pushed value above
+    // the width are garbage, which push_int must ignore
+    let mut pos = 0usize;
+    let mut salt = 0x9E37_79B9_7F4A_7C15u64 ^ (bits.len() as u64);
+    while left > 0 {
+        salt = salt.wrapping_mul(6364136223846793005).wrapping_add(1442695040888963407);
+        let k = std::cmp::min(left, 1 + (salt >> 58) as usize + if salt & 1 == 0 { 0 } else { 1 });
+        let k = std::cmp::min(k, 64);
+        let mut v = 0u64;
+        for j in 0..k {
+            if bits[pos + j] {
+                v |= 1u64 << j;
+            }
+        }
+        if k < 64 {
+            v |= (salt | 1) << k;
+        }
+        unsafe { raw.push_int(v, k); }
+        pos += k;
         left -= k;
     }
     let mut a = BitVector::from(raw);
